@@ -1,5 +1,6 @@
 //! `laws` (Eq / Ord / Hash laws on three values) and `assoc` (rendition lookup).
 
+use std::borrow::Cow;
 use std::cmp::Ordering;
 use std::collections::hash_map::DefaultHasher;
 use std::convert::TryFrom;
@@ -42,6 +43,15 @@ fn key_from(s: &str) -> Result<DecryptionKey<'_>, ()> {
         k.iv = InitializationVector::Number(n);
     }
     Ok(k)
+}
+
+/// `other:REST` = the variant `KeyFormat::Other(Cow::Owned(REST))` itself (a value only the API can build when REST is
+/// a well-known format string), else `KeyFormat::from(&str)` (which normalises the well-known strings).
+fn key_format_from(s: &str) -> KeyFormat<'_> {
+    match s.strip_prefix("other:") {
+        Some(rest) => KeyFormat::Other(Cow::Owned(rest.to_string())),
+        None => KeyFormat::from(s),
+    }
 }
 
 fn hash_of<T: Hash>(x: &T) -> u64 {
@@ -121,9 +131,10 @@ pub(crate) enum KfvError {
     Parse,
 }
 
-/// `<versions>[#<k>[+<v>]]`: `versions` is parsed with `FromStr` (or is the
-/// literal `empty` = `KeyFormatVersions::new()`), then `.truncate(k)`, then
-/// `.push(v)`.  The part of the buffer behind the length keeps stale data.
+/// `<versions>[#<k>[+<v>]][~<n>]`: `versions` is parsed with `FromStr` (or is
+/// the literal `empty` = `KeyFormatVersions::new()`), then `.truncate(k)`, then
+/// `.push(v)`, then `n` times `.pop()` (the text behind the last `~` of the
+/// whole text).  The part of the buffer behind the length keeps stale data.
 fn key_format_versions(text: &str) -> Result<KeyFormatVersions, KfvError> {
     key_format_versions_from(text, false)
 }
@@ -142,6 +153,12 @@ pub(crate) fn key_format_versions_from(
         }
         s.parse().map_err(|_| KfvError::Syntax)
     }
+
+    // `~N` at the very end: N times `.pop()` after everything else.
+    let (text, pops) = match text.rsplit_once('~') {
+        Some((t, n)) => (t, dec::<usize>(n)?),
+        None => (text, 0),
+    };
 
     let (versions, suffix) = match text.split_once('#') {
         Some((v, s)) => (v, Some(s)),
@@ -176,6 +193,9 @@ pub(crate) fn key_format_versions_from(
         if let Some(v) = push {
             x.push(v);
         }
+    }
+    for _ in 0..pops {
+        let _ = x.pop();
     }
     Ok(x)
 }
@@ -230,7 +250,7 @@ pub(crate) fn op_laws(args: &[&str]) -> String {
             laws_case!(laws3, ta, tb, tc, s => ClosedCaptions::try_from(s), observe::closed_captions)
         }
         "KeyFormat" => {
-            laws_case!(laws3, ta, tb, tc, s => Ok::<_, ()>(KeyFormat::from(s)), observe::key_format)
+            laws_case!(laws3, ta, tb, tc, s => Ok::<_, ()>(key_format_from(s)), observe::key_format)
         }
         "KeyFormatVersions" => {
             let parsed = [ta, tb, tc].map(key_format_versions);
